@@ -80,6 +80,53 @@ def accounting_cases(rng, tier):
             if r.ok and r.requests != [8]:
                 c.fail(f"format 4 encipher requested {r.requests}")
             yield c
+    # chosen values of the operating system's entropy (extremes and rejection boundaries of the choice map, constant pads): every
+    # admissible fill value must come out exactly as the draws dictate - all-A, all-F, fills reached only through rejected draws
+    def crafted(n):
+        a, f, rej = 0x00, 0xBF, [0xC0, 0xDF, 0xE0, 0xFF]
+        yield bytes([a]) * n
+        yield bytes([f]) * n
+        yield bytes([0xA0, 0xBF]) * n                       # E F E F ...
+        yield bytes(x for _ in range(n) for x in (rng.choice(rej), rng.choice(rej), rng.choice([0x00, 0x3F, 0x5F, 0x9F, 0xBF])))
+        yield bytes([0xBF] * (n - 1) + [0xDF, 0xFF, 0xC0, 0xA0])   # all F, then three rejected draws before the last digit
+        yield bytes(rng.choice([0x1F, 0x20, 0x3F, 0x40, 0x5F, 0x60, 0x7F, 0x80, 0x9F, 0xA0, 0xBF]) for _ in range(n))
+    for plen in (4, 5, 11, 12):
+        for ent in crafted(10):
+            pin, pan = digits(rng, plen), digits(rng, rng.randrange(13, 20))
+            c = Case("chosen-entropy:iso3", {"pin_len": plen, "entropy": ent.hex()[:24]})
+            r = c.call("pinblock.encode_pinblock_iso_3", pin, pan, with_entropy=True, entropy=ent + bytes(64))
+            if not r.ok:
+                c.fail(f"encoder raised {r.err} for an admissible value of the random fill")
+            else:
+                clear = bytes(a ^ b for a, b in zip(r.value, b"\x00\x00" + bytes.fromhex(pan[-13:-1]))).hex().upper()
+                want = "".join("ABCDEF"[b >> 5] for b in r.entropy if b >> 5 < 6)[: 14 - plen]
+                if clear[2 + plen:] != want or sum(1 for b in r.entropy if b >> 5 < 6) != 10:
+                    c.fail(f"format 3 fill {clear[2 + plen:]} is not the choice sequence {want} of the chosen entropy")
+            yield c
+    for plen in (4, 12):
+        for ent in (bytes(8), b"\xff" * 8, b"\xaa" * 8, bytes(range(8)), b"AAAAAAAA"):
+            c = Case("chosen-entropy:iso4", {"pin_len": plen, "entropy": ent.hex()})
+            r = c.call("pinblock.encode_pin_field_iso_4", digits(rng, plen), with_entropy=True, entropy=ent)
+            if not r.ok or r.value[8:] != ent:
+                c.fail("format 4 PIN field does not carry the chosen random half")
+            yield c
+            c = Case("chosen-entropy:iso4-encipher", {"pin_len": plen})
+            r = c.call("pinblock.encipher_pinblock_iso_4", rb(rng, rng.choice((16, 24, 32))), digits(rng, plen), digits(rng, rng.randrange(1, 20)), with_entropy=True, entropy=ent)
+            if not r.ok:
+                c.fail(f"format 4 encipher raised {r.err} for an admissible value of the random half")
+            yield c
+    for ver, (bs, ksizes, ml) in VERS.items():
+        for fillbyte in (0x00, 0xFF, 0x01, 0x80):
+            key = rb(rng, rng.choice([5, 16, 24]))
+            mask = rng.choice([None, 40])
+            c = Case(f"chosen-entropy:wrap:{ver}", {"pad_byte": fillbyte, "key": len(key), "mask": mask})
+            w = c.call("tr31.wrap", rb(rng, ksizes[-1]), make_header(rng, ver, rand_blocks(rng, rng.randrange(0, 2)), alg=rng.choice("TDA")), key, mask,
+                       op="tr31.wrap", stream="tr31", with_entropy=True, entropy=bytes([fillbyte]) * 128)
+            if not w.ok:
+                c.fail(f"wrap raised {w.err} for a constant masking pad (an admissible value)")
+            elif len(w.requests) != 1:
+                c.fail(f"wrap requested OS entropy {w.requests}, expected one request")
+            yield c
 
 
 def configs(rng):
